@@ -5,6 +5,7 @@ from pyvc.report import Report
 from pyvc import frag, front
 from pyvc.frag import ex as X, FLAGS
 from .common import run_fragments
+from . import wiring
 
 
 def ground(rep):
@@ -57,6 +58,7 @@ def run(tier, seed):
                      'recursive spec functions; surface syntax e{..}, //, /? mapped to the same objects and the same emitted text.')
     run_fragments(rep, [core.ListC(), lists.BoundedListC(), lists.SepC()], tier)
     ground(rep)
+    wiring.a_subst_obligations(rep, tier)
     rep.functions.update(['sourcer.expressions.list._check_min_and_max_len', 'sourcer.expressions.sugar.Some',
                           'sourcer.translator._create_parsing_expression (Repeat / Sep branches)'])
     rep.assumptions.append('data-dependent bounds are non-negative integers (property: "all integer bounds 0..k")')
